@@ -161,7 +161,7 @@ class OpsSeq(Model):
             return n.as_long()
         if it is not None and it.ctx is not None:
             # the path condition may force the arity (e.g. typ(g) = GT and the arity precondition)
-            for k in range(0, 4):
+            for k in range(0, 6):
                 if not it.ctx.feasible(self.n != k):
                     return k
         return None
